@@ -289,7 +289,12 @@ def lock_cases(ctx):
         def __init__(self, path, *a, **k):
             self._l = real_lock(path, *a, **k)
 
+        held_elsewhere = False      # the other side holds the lock for longer than the time-out
+
         def acquire(self, *a, **k):
+            if RecLock.held_elsewhere:
+                log.append("timeout")
+                raise filelock.Timeout(getattr(self._l, "lock_file", "status.lock"))
             proxy = self._l.acquire(*a, **k)
             log.append("acquire")
             outer = self
@@ -338,17 +343,24 @@ def lock_cases(ctx):
         fake_os = _OS()
         fake_os.path = _Path()
         cmod.os = fake_os
-        for rep in range(2):
+        for rep in range(4):
+            # rounds 2 and 3: the lock cannot be had within the time-out
+            RecLock.held_elsewhere = rep >= 2
+            sfx = "-timeout" if rep >= 2 else ""
             del log[:]
             g.write_status(root)
             w = list(log)
             del log[:]
-            Conductor.get_status(root)
+            table = Conductor.get_status(root)
             r = list(log)
-            for who, tr in (("writer", w), ("reader", r)):
+            for who, tr in (("writer" + sfx, w), ("reader" + sfx, r)):
                 mon = []
+                if who == "reader-timeout" and table:
+                    mon.append(("no-torn-read", "the reader could not get the lock but returned a table with "
+                                "%d columns: it read status.csv while a writer may be rewriting it" % len(table)))
                 want = {"writer": ["acquire", "open:w+", "write", "close", "release"],
-                        "reader": ["exists", "acquire", "open:r", "read", "close", "release"]}[who]
+                        "reader": ["exists", "acquire", "open:r", "read", "close", "release"],
+                        "writer-timeout": ["timeout"], "reader-timeout": ["exists", "timeout"]}[who]
                 if tr != want:
                     # which clause of the property is at stake: the file is
                     # touched outside the lock
@@ -371,6 +383,7 @@ def lock_cases(ctx):
                                   ["lock.trace %s %s" % (who, " ".join(tr))], ["accept"], mon, True,
                                   key="lock:%s:%d" % (who, rep)))
     finally:
+        RecLock.held_elsewhere = False
         egmod.FileLock, cmod.FileLock = saved
         for m in (egmod, cmod):
             if "open" in m.__dict__:
